@@ -156,5 +156,51 @@ theorem newP_eq (side : Side) (P : Vec K → Vec K) (n : Nat) (sL : St K) (sB : 
     field_simp
     ring
 
+/-- `s = r − alpha·v` written with `axpbypcz` (bicgstab.hpp) and with `axpby` (bicgstabl.hpp) -/
+theorem svec_eq (n : Nat) (a : K) (v r z : Vec K) (hv : v.size = n) (hr : r.size = n) :
+    axpbypcz 1 r (-a) v 0 z = axpby (-a) v 1 r := by
+  apply Vec.ext_getD (0 : K) (by rw [axpbypcz_size, axpby_size, hv, hr])
+  intro i hi
+  rw [axpbypcz_size, hr] at hi
+  rw [axpbypcz_getD _ _ _ _ _ _ _ (by rw [hr]; exact hi), axpby_getD _ _ _ _ _ (by rw [hv]; exact hi)]
+  ring
+
+/-- the `alpha` half step of bicgstab.hpp with the search direction `p` -/
+theorem half_eq (side : Side) (sqrt : K → K) (A : CRS K) (P : Vec K → Vec K) (n : Nat) (hF : Lin n (Ap side P A))
+    (sB : BiCGStab.St K) (p : Vec K) (hr : sB.w.r.size = n) :
+    let h := BiCGStab.half side stdIp sqrt A P sB p
+    let v := Ap side P A p
+    let alpha := stdIp sB.w.r sB.w.rh / stdIp v sB.w.rh
+    h.v = v ∧ h.alpha = alpha ∧ h.s = axpby (-alpha) v 1 sB.w.r ∧ h.res = nrm stdIp sqrt (axpby (-alpha) v 1 sB.w.r) ∧
+    h.x = xAdd side P alpha p sB.x ∧ h.p = p ∧ h.rho1 = stdIp sB.w.r sB.w.rh ∧
+    (side = .right → h.T = P p) := by
+  intro h v alpha
+  have hv : h.v = v := pspmv_fst side P A p sB.w.v sB.w.T
+  have ha : h.alpha = alpha := by show stdIp sB.w.r sB.w.rh / stdIp h.v sB.w.rh = _; rw [hv]
+  have hs : h.s = axpby (-alpha) v 1 sB.w.r := by
+    show axpbypcz 1 sB.w.r (-h.alpha) h.v 0 sB.w.s = _
+    rw [ha, hv]; exact svec_eq n alpha v sB.w.r sB.w.s (hF.size p) hr
+  refine ⟨hv, ha, hs, by show nrm stdIp sqrt h.s = _; rw [hs], ?_, rfl, rfl, ?_⟩
+  · cases side with
+    | left => show axpby h.alpha p 1 sB.x = _; rw [ha]; rfl
+    | right => show axpby h.alpha h.T 1 sB.x = _; rw [ha]; rfl
+  · intro e; subst e; rfl
+
+/-- the `omega` half step of bicgstab.hpp when `omega ≠ 0` -/
+theorem full_eq (side : Side) (sqrt : K → K) (A : CRS K) (P : Vec K → Vec K) (sB : BiCGStab.St K) (h : BiCGStab.Half K) :
+    let t := Ap side P A h.s
+    let omega := stdIp h.s t / stdIp t t
+    omega ≠ 0 → ∃ T' : Vec K, BiCGStab.full side stdIp sqrt A P sB h =
+      .ok { first := false, iter := sB.iter + 1, rho1 := h.rho1, alpha := h.alpha, omega := omega,
+            res := nrm stdIp sqrt (axpbypcz 1 h.s (-omega) t 0 sB.w.r), x := xAdd side P omega h.s h.x,
+            w := ⟨axpbypcz 1 h.s (-omega) t 0 sB.w.r, h.p, h.v, h.s, t, sB.w.rh, T'⟩ } := by
+  intro t omega ho
+  unfold BiCGStab.full
+  simp only [pspmv_fst]
+  rw [if_neg ho]
+  cases side with
+  | left => exact ⟨_, rfl⟩
+  | right => exact ⟨_, rfl⟩
+
 end refine
 end Amgcl.Solver.BiCGStabL
